@@ -3,8 +3,8 @@ import common
 from common import Case
 
 TITLE = 'Protocol messages mean the same to both ends and framing always terminates'
-LEAN_TARGETS = ['BridgeVerif.Props.C19', 'BridgeVerif.Translated.NetHelpers', 'BridgeVerif.Translated.Messages', 'BridgeVerif.Translated.ThreadsFraming', 'BridgeVerif.Translated.ThreadsClientF', 'BridgeVerif.Translated.ThreadsMainE', 'BridgeVerif.Translated.ThreadsClientHands']
-AUDIT_PROPS = ['C19', 'Translated.NetHelpers', 'Translated.Messages', 'Translated.ThreadsFraming', 'Lemmas.RegexMsgBidA', 'Lemmas.RegexMsgBidC', 'Lemmas.RegexMsgBidD', 'Translated.MsgParsersA', 'Translated.MsgParsersC', 'Translated.MsgParsersD', 'Lemmas.RegexMsgClient', 'Lemmas.RegexMsgClientB', 'Translated.ClientParsersB', 'Translated.ClientParsersC', 'Translated.ClientParsersD', 'Lemmas.RegexMsgHandA', 'Lemmas.RegexMsgHandB', 'Translated.HandParsersA', 'Translated.HandParsersD', 'Translated.ThreadsClientHands']
+LEAN_TARGETS = ['BridgeVerif.Props.C19', 'BridgeVerif.Translated.NetHelpers', 'BridgeVerif.Translated.Messages', 'BridgeVerif.Translated.ThreadsFraming', 'BridgeVerif.Translated.ThreadsClientF', 'BridgeVerif.Translated.ThreadsMainE', 'BridgeVerif.Translated.MsgParsersF', 'BridgeVerif.Translated.ThreadsClientHands']
+AUDIT_PROPS = ['C19', 'Translated.NetHelpers', 'Translated.Messages', 'Translated.ThreadsFraming', 'Lemmas.RegexMsgBidA', 'Lemmas.RegexMsgBidC', 'Lemmas.RegexMsgBidD', 'Translated.MsgParsersA', 'Translated.MsgParsersC', 'Translated.MsgParsersD', 'Translated.MsgParsersE', 'Translated.MsgParsersF', 'Lemmas.RegexMsgClient', 'Lemmas.RegexMsgClientB', 'Translated.ClientParsersB', 'Translated.ClientParsersC', 'Translated.ClientParsersD', 'Lemmas.RegexMsgHandA', 'Lemmas.RegexMsgHandB', 'Translated.HandParsersA', 'Translated.HandParsersD', 'Translated.ThreadsClientHands']
 REQUIRED = ['Translated.ThreadsFraming.framing_send_translated', 'Translated.ThreadsFraming.framing_recv_translated', 'Translated.ThreadsFraming.framing_recv_bad_terminator', 'Translated.ThreadsFraming.framing_recv_eof', 'Translated.ThreadsFraming.framing_recv_blocked', 'Translated.ThreadsFraming.framing_stream_translated', 'Translated.ThreadsFraming.framing_recv_model',
             'Translated.Messages.bid_message_round_trip', 'Translated.Messages.bid_message_variants', 'Translated.Messages.card_message_round_trip', 'Translated.Messages.board_header_round_trip', 'Translated.Messages.connection_line_read',
             'Translated.NetHelpers.nh_hand_to_str_translated',
